@@ -21,6 +21,15 @@ import (
 
 var VerifRoot = "/verif"
 
+// OutRoot is where evidence/ and replays/ are written: VerifRoot, unless VERIF_OUT redirects
+// the harness's own validation runs (seeded changes) somewhere else.
+func OutRoot() string {
+	if v := os.Getenv("VERIF_OUT"); v != "" {
+		return v
+	}
+	return VerifRoot
+}
+
 // Witness is one complete case: enough to re-run it (replay) and to show what was
 // expected and what was observed.
 type Witness struct {
@@ -33,7 +42,7 @@ type Witness struct {
 	Input    []byte        `json:"input,omitempty"`
 	InputStr string        `json:"input_str,omitempty"` // human-readable copy of Input
 	Toks     []string      `json:"toks,omitempty"`
-	FailAt   int           `json:"fail_at,omitempty"`
+	FailAt   int           `json:"fail_at"`
 	History  []HistItem    `json:"history,omitempty"`
 	Ints     []int64       `json:"ints,omitempty"`
 	Strs     []string      `json:"strs,omitempty"`
@@ -114,6 +123,7 @@ type Ctx struct {
 	nontrivial    map[string]bool
 	samples       []interface{}
 	extra         map[string]interface{}
+	sets          map[string]map[string]bool
 	violations    []*Witness
 	violKeys      map[string]bool
 	inconclusive  []string
@@ -169,6 +179,18 @@ func (c *Ctx) Add(key string, n int) {
 	c.mu.Unlock()
 }
 
+// Mark adds key to a named set; the evidence reports the set's size under that name.
+func (c *Ctx) Mark(set, key string) {
+	c.mu.Lock()
+	m := c.sets[set]
+	if m == nil {
+		m = map[string]bool{}
+		c.sets[set] = m
+	}
+	m[key] = true
+	c.mu.Unlock()
+}
+
 func (c *Ctx) Max(key string, n int) {
 	c.mu.Lock()
 	cur, _ := c.extra[key].(int)
@@ -192,8 +214,14 @@ func (c *Ctx) Inconclusive(why string) {
 func (c *Ctx) Violation(w *Witness) {
 	w.Property = c.ID
 	w.Seed = c.Seed
-	if w.Grammar != nil && w.Text == "" {
-		w.Text = w.Grammar.Render(nil)
+	if w.Grammar != nil {
+		// the file header depends on the scratch package name; it is re-created on replay
+		g := *w.Grammar
+		g.Header = ""
+		w.Grammar = &g
+		if w.Text == "" {
+			w.Text = w.Grammar.Render(nil)
+		}
 	}
 	if w.Input != nil && w.InputStr == "" {
 		w.InputStr = strconv.QuoteToASCII(string(w.Input))
@@ -239,6 +267,9 @@ func (c *Ctx) writeEvidence() error {
 	for k, v := range c.extra {
 		cov[k] = v
 	}
+	for k, m := range c.sets {
+		cov[k] = len(m)
+	}
 	cov["evaluations"] = c.evaluations
 	cov["distinct_nontrivial"] = len(c.nontrivial)
 	cov["rule"] = c.Rule
@@ -258,7 +289,7 @@ func (c *Ctx) writeEvidence() error {
 	if err != nil {
 		return err
 	}
-	dir := filepath.Join(VerifRoot, "evidence")
+	dir := filepath.Join(OutRoot(), "evidence")
 	os.MkdirAll(dir, 0777)
 	return os.WriteFile(filepath.Join(dir, c.ID+".json"), append(b, '\n'), 0666)
 }
@@ -297,7 +328,7 @@ func Main(id, tier, replayPath string) int {
 		tier = "quick"
 	}
 	c := &Ctx{ID: id, Tier: tier, Seed: seed, Rng: rand.New(rand.NewSource(seed*1000003 + int64(len(id)))), Start: time.Now(),
-		nontrivial: map[string]bool{}, extra: map[string]interface{}{}, violKeys: map[string]bool{}, knownPrinted: map[string]bool{},
+		nontrivial: map[string]bool{}, extra: map[string]interface{}{}, sets: map[string]map[string]bool{}, violKeys: map[string]bool{}, knownPrinted: map[string]bool{},
 		known: LoadKnown(), MinNontrivial: 2}
 	if cp.NeedsWorkspace {
 		w, err := run.NewWorkspace()
@@ -363,7 +394,7 @@ func Main(id, tier, replayPath string) int {
 		fmt.Println("cannot write evidence:", e)
 	}
 	if len(c.violations) > 0 {
-		dir := filepath.Join(VerifRoot, "replays")
+		dir := filepath.Join(OutRoot(), "replays")
 		os.MkdirAll(dir, 0777)
 		max := len(c.violations)
 		if max > 10 {
